@@ -5,7 +5,7 @@ ID=$1; N=$2; DEMO="$3"; WT=/tmp/wt/$ID; OUT=/tmp/wt/$ID-out
 cd $WT || exit 3
 git checkout -q -- . ; git clean -fdq -e target
 git apply $OUT/mutant$N.diff || { echo "VET $ID/$N: patch does not apply"; exit 1; }
-T=$(CARGO_NET_OFFLINE=true timeout 900 cargo test --offline 2>&1 | grep -E "^test result: ok. 47 passed" | wc -l)
+T=$(CARGO_NET_OFFLINE=true timeout 900 cargo test --offline 2>&1 | grep -E "^test result: ok. (4[7-9]|5[0-9]) passed; 0 failed" | wc -l)
 timeout 900 bash -c "$DEMO" >/tmp/wt/$ID-out/vet$N.with.log 2>&1; RC_WITH=$?
 git checkout -q -- . ; git clean -fdq -e target
 timeout 900 bash -c "$DEMO" >/tmp/wt/$ID-out/vet$N.without.log 2>&1; RC_WITHOUT=$?
